@@ -251,8 +251,12 @@ def r_gate(ck: Checker) -> None:
                     raise Unsupported(f"__post_init__: excluded field names {norm(gen.ifs[0].comparators[0])[:50]} not resolved", g)
     if ok:
         ck.holds("R-GATE", f, callc[0], what)
+    elif fmap is None:
+        # the call site passes no field map (the helper selects the fields itself): nothing here says which fields are checked, so
+        # nothing is decided (round 8, C13-r30: a false alarm of the earlier reading, which took the missing argument for a wrong map)
+        raise Unsupported("__post_init__: the type-check helper is called without a field map (the selection of the checked fields moved elsewhere)", g)
     else:
-        ck.violation("R-GATE", f, g, what, construct=f"checked field map: {norm(fmap)[:90] if fmap is not None else None}")
+        ck.violation("R-GATE", f, g, what, construct=f"checked field map: {norm(fmap)[:90]}")
     # the per-field helper
     h = ck.repo.func(NODE, "_check_runtime_types")
     hbody = lower_collect(strip_docstring(h.node.body))
